@@ -1,10 +1,13 @@
 #!/bin/sh
-# usage: tools/seedtest.sh <patch.diff> <check-id> [tier]  -- applies a seeded change to /repo, runs the check, reverts.
+# usage: tools/seedtest.sh <patch.diff> <check-id> [tier]
+# Trial of a seeded change: applies it to a scratch worktree of /repo's HEAD (outside /repo and /verif), runs the
+# check against that worktree (VERIF_REPO), removes the worktree.  /repo itself is not touched, so several trials
+# and normal work can run side by side.  (The registered checks always run against /repo.)
 P="$1"; ID="$2"; TIER="${3:-quick}"
-cd /repo || exit 2
-if [ -n "$(git status --porcelain)" ]; then echo "repo dirty"; exit 2; fi
-git apply "$P" || { echo "patch does not apply"; exit 2; }
-cd /verif && timeout 3000 bin/check "$ID" --tier "$TIER" > "out/seed-$ID-$$.log" 2>&1; rc=$?
-git -C /repo checkout -- . 
+WT="/tmp/seedwt-$$"
+git -C /repo worktree add -q --detach "$WT" HEAD || exit 2
+if ! git -C "$WT" apply "$P"; then echo "seedtest $P: patch does not apply"; git -C /repo worktree remove --force "$WT"; exit 2; fi
+cd /verif && VERIF_REPO="$WT" timeout 3000 bin/check "$ID" --tier "$TIER" > "out/seed-$ID-$$.log" 2>&1; rc=$?
+git -C /repo worktree remove --force "$WT"
 echo "seedtest $P on $ID: exit=$rc"; grep -E "^VIOLATION|signature|INFRA|KNOWN" "out/seed-$ID-$$.log" | head -6
 exit 0
